@@ -953,6 +953,9 @@ class SymSession:
         self.view = None
         self._pending = []
         self._persistent = {}
+        h = self.db.hooks
+        if h is not None and hasattr(h, 'on_end'):
+            h.on_end(self)
 
     def in_transaction(self):
         return self.view is not None
